@@ -147,13 +147,37 @@ func tableCheck(atoms []string, rows []pathRow, outcome func(pathRow) string, wa
 		switch {
 		case len(keys) == 0:
 			bad = append(bad, st+": no path")
+		case len(keys) > 1 && allAccepted(w, keys):
+			// several observably equal outcomes, each allowed in this state
 		case len(keys) > 1:
 			bad = append(bad, st+": outcome depends on a condition the rule does not recognise ("+strings.Join(keys, "/")+")")
-		case keys[0] != w:
+		case !wantAccepts(w, keys[0]):
 			bad = append(bad, fmt.Sprintf("%s: %s, specification says %s", st, keys[0], w))
 		}
 	}
 	return bad, states
+}
+
+// wantAccepts: a specification cell "a|b" accepts either outcome (observably equal in that state).
+func wantAccepts(want, got string) bool {
+	for _, alt := range strings.Split(want, "|") {
+		if alt == got {
+			return true
+		}
+	}
+	return false
+}
+
+func allAccepted(want string, keys []string) bool {
+	if !strings.Contains(want, "|") {
+		return false
+	}
+	for _, k := range keys {
+		if !wantAccepts(want, k) {
+			return false
+		}
+	}
+	return true
 }
 
 func asgString(atoms []string, asg map[string]bool) string {
